@@ -142,9 +142,11 @@ def compare_sens(defn, m, out, rng, npoints=2):
                 mism.append({"key": key, "kind": "shape", "detail": "%s vs spec %s" % (got.shape, want_shape)})
                 continue
             flat = got.reshape(-1)
-            for idx, (g, p) in enumerate(zip(flat, polys)):
-                e, sc = codec.peval(sy, p, pt, scale=True)
-                if not (abs(g - e) <= NUM_TOL * (sc + abs(g)) + 1e-300):
+            # (floor: an entry whose terms cancel comes back as a rounding residue of the size of the terms that cancelled)
+            evs = [codec.peval(sy, p, pt, scale=True) for p in polys]
+            floor = NUM_TOL * max([float(sc_) for _e, sc_ in evs] + [0.0])
+            for idx, (g, (e, sc)) in enumerate(zip(flat, evs)):
+                if not (abs(g - e) <= NUM_TOL * (sc + abs(g)) + floor + 1e-300):
                     where = idx if key.startswith("aug") else (idx // len(vars_), idx % len(vars_))
                     mism.append({"key": key, "kind": "value",
                                  "detail": "entry %s: pygom %r spec %r at z=%s t=%s theta=%s" %
